@@ -653,10 +653,19 @@ var rrTables = []rrTable{
 
 func rrRoute(tbl route.Table) *route.Route { return tbl["rr.example"][0] }
 
+// targetIndex identifies the target a lookup returned among the targets of a route.  Since fix ddf101c a
+// redirect target is returned as a per-request copy: it shares the *url.URL of the target it was copied from.
 func targetIndex(rt *route.Route, t *route.Target) int {
 	for i, x := range rt.Targets {
 		if x == t {
 			return i
+		}
+	}
+	if t != nil && t.RedirectCode != 0 {
+		for i, x := range rt.Targets {
+			if x.URL == t.URL && x.Service == t.Service {
+				return i
+			}
 		}
 	}
 	return -1
